@@ -152,5 +152,8 @@ pub(crate) trait CMsgHdr {
     fn len(&self) -> usize;
 }
 
+// Large enough for everything a single received message can carry: SCM_TIMESTAMPNS (32),
+// UDP_GRO (24), IPV6_PKTINFO (40) and IP_TOS / IPV6_TCLASS (24). With a smaller buffer the kernel
+// truncates the control data and the ECN codepoint of coalesced datagrams is lost.
 #[cfg(unix)]
-pub(crate) const LEN: usize = 96;
+pub(crate) const LEN: usize = 128;
